@@ -40,10 +40,14 @@ RULE = ('chains of 0..6 elementary transforms (as C06) plus chains with three no
         'propagate_error, the four *_ray* functions); operands: random (coordinates log-uniform up to 1e6, error boxes up to '
         '1e-3, zeros and exact values) and ADVERSARIAL (products and partial sums steered to just above a power of two, then a '
         'greedy low-bit search maximising the exact rounding error over the reported bound, using fused multiply-add / TwoSum '
-        'error-free transformations); non-trivial = finite affine case with a non-zero input; distinct = distinct (op, matrix, operand bits)')
+        'error-free transformations); thorough tier: also 4000 cases of the f32 build (the adversarial search then works on binary32 ulps); non-trivial = finite affine case with a non-zero input; distinct = distinct (op, matrix, operand bits)')
 ASSUMPTIONS = [
     'Coq 8.16.1 kernel + vm_compute; Flocq 4.1.0; float-tier theorems hold for every binary format with prec >= 8 (binary32/64 are instances), under the stated no-underflow / finiteness guards',
     'model = code: transform.rs error functions checked bit-for-bit on primitive floats (coq/Run/C06.v, ops 6,7,11..20)',
+    'f32 build (thorough tier): the same runner text on the binary32 instance (module C06f32 of Run/C06.v on NumF32fast, proved equal to the Flocq-rounded NumF32 in '
+    'Run/FastNum32Proof.v) against the harness built with --features float, bit for bit (no libm on ops 6,7,11..20); the oracle judges f32 cases with the binary32 '
+    'parameters (u = 2^-24, gamma3 = 3u/(1-3u), underflow threshold 2^-101) -- (S) and (M) are compared exactly, with no rounding tolerance to calibrate; the (R) and '
+    'ray-origin parts, which re-evaluate the un-nudged origin in binary64, are not judged on f32 cases',
     '(M) is stated against two yardsticks: points gamma3 (sum|m_ij x_j| + |m_i3|) + sum|m_ij| e_j (theorems C16_M_with_error, C16_M_propagate, guard safe_trans: m_i3 zero or not in the underflow range), vectors gamma3 sum|m_ij v_j| + sum|m_ij| e_j without any translation term and without any hypothesis on the translation (C16_M_vec_with_error, C16_M_vec_propagate); the factor 2 is the property\'s "small constant factor"',
     '(R) is proved on the real-number instance (exact tier); its float reading is sampled by the oracle with a rounding tolerance',
     'rustc/LLVM evaluate + - * / in IEEE-754 binary64 round-to-nearest-even without contraction on x86-64',
@@ -60,7 +64,10 @@ THEOREMS = ['C16_S_vec', 'C16_S_point', 'C16_S_vec_box_partial', 'C16_S_point_bo
 def streams(tier):
     if tier == 'quick': return [Stream('C16', 1500)]
     if tier == 'search': return [Stream('C16', 8000)]
-    return [Stream('C16', 16000), Stream('C16', 6000, release=True)]
+    # f32 build (thorough tier): runner module C06f32 (binary32 instance); the oracle is parametric in the format (params(st):
+    # u = 2^-24, gamma3, underflow threshold of binary32) -- the (S)/(M) statements are theorems for every format with prec >= 8 --
+    # validated on seeds 1-5 x 4000 f32 cases: no flag outside the recorded underflow class
+    return [Stream('C16', 16000), Stream('C16', 6000, release=True), Stream('C16', 4000, f32=True)]
 
 FN = {6: 'ray', 7: 'inv_ray', 11: 'pt_with_error', 12: 'inv_pt_with_error', 13: 'pt_propagate_error', 14: 'inv_pt_propagate_error',
       15: 'vec_with_error', 16: 'inv_vec_with_error', 17: 'vec_propagate_error', 18: 'inv_vec_propagate_error',
